@@ -292,6 +292,8 @@ def lex_family(prop, tier, seed, *, relevant, select, name, cfgs, N, starts, bud
             f'(decided by C03/C04/C08/C11 checks)')
     if tot['leaves'] == 0:
         rc = max(rc, 2)
+    if ev.violations > 0:
+        rc = 1          # a natively reproduced violation decides the run, even if other models did not reproduce
     if acc_cov is not None:
         ev.coverage['acceptance'] = acc_cov
     if evidence_hook is not None:
@@ -367,11 +369,42 @@ def c04(tier, seed):
 
 
 def c05(tier, seed):
+    from . import runtime_checks
     tp = tier_params(tier)
     tp['cfgs'] = ['tc-unsafe', 'sm-unsafe', 'tc-safe'] if tier == 'quick' else CFG_ALL
-    return lex_family('C05', tier, seed, relevant={'C05'}, select=sel_for(tier, 'loop'), name='lex',
-                      long_defs=LONG_QUICK if tier == 'quick' else LONG_THOROUGH,
-                      profiles=('dev',) if tier == 'quick' else ('dev', 'release'), **tp)
+    hook = {}
+    rc = lex_family('C05', tier, seed, relevant={'C05'}, select=sel_for(tier, 'loop'), name='lex',
+                    long_defs=LONG_QUICK if tier == 'quick' else LONG_THOROUGH,
+                    profiles=('dev',) if tier == 'quick' else ('dev', 'release'), evidence_hook=hook, **tp)
+    ev = hook['ev']
+    # (b) the public Source::read contract, offset a free 64-bit vector
+    results = runtime_checks.read_contract(tier, ev.coverage)
+    cases = {}
+    q = 0
+    for st, key, r, wall in results:
+        if st != 'ok':
+            log(f'ENGINE: {key}: {str(r)[-500:]}')
+            rc = max(rc, 2)
+            continue
+        cases[key] = r['stats']
+        q += r['engine']['queries']
+        seen = set()
+        for f in r['failures']:
+            if f['what'][:40] in seen:
+                continue
+            seen.add(f['what'][:40])
+            m = f['model']
+            info = {'property': 'C05', 'case': key, 'what': f['what'], 'model': m,
+                    'repro': f'<{key.split("/")[1]} as logos::Source>::read::<chunk of {key.split("/")[2]}>(source = {bytes(m["bytes"]).hex()}, '
+                             f'offset = {m.get("vars", {}).get("offset")})'}
+            rc = max(rc, known_or_violation('C05', {'function': 'Source::read', 'what': f['what'][:40]},
+                                            f'{key}: {f["what"]} (len={m["len"]}, offset={m.get("vars", {}).get("offset")})', info, ev,
+                                            'read-' + key.replace('/', '-')))
+    ev.coverage['source_read_contract'] = {'cases': cases, 'queries': q, 'bounds': 'len <= 9, offset any 64-bit value, chunk sizes 1/2/4/8, '
+                                           'str and [u8], default and forbid_unsafe' + ('' if tier == 'quick' else ', dev and release')}
+    ev.write()
+    log(f'C05 read contract: {len(cases)} cases, {q} queries, rc={rc}')
+    return rc
 
 
 def c20(tier, seed):
